@@ -130,6 +130,14 @@ fn dispatch(ctx: &Ctx) -> Outcome {
     let soft = std::env::var("FDMON_SOFT_SECS").ok().and_then(|s| s.parse().ok()).unwrap_or(if ctx.quick() { 660 } else { 6300 });
     util::set_soft_deadline(soft);
     let mut out = dispatch_inner(ctx);
+    {
+        use std::sync::atomic::Ordering;
+        let (n, bad) = (util::LOGGER_REENTRIES.load(Ordering::Relaxed), util::LOGGER_TROUBLE.load(Ordering::Relaxed));
+        out.extra.push(("logger_used_the_library_itself".into(), J::s(format!("{} times while a library call was logging ({} went wrong)", n, bad))));
+        if bad > 0 && ["C12", "C13", "C14", "C19"].contains(&ctx.prop.as_str()) {
+            out.report.violation("reentrant_logger", "library_misbehaves_inside_a_logger", "reentrant-logger", format!("a logger that configures a virtual sign of its own, codes a frame and draws on a page while the library call that logged is still running got a wrong result {} time(s) out of {}", bad, n), J::obj(vec![("workload", J::s("re-entrant logger"))]));
+        }
+    }
     let cut = out.report.get("shards_skipped_at_the_soft_deadline") + out.report.get("loops_cut_short_at_the_soft_deadline");
     if cut > 0 {
         out.floors.push(util::floor(&format!("the workload ran to its end within {} s (otherwise what was observed is reported, and the run is inconclusive)", soft), false, format!("{} shard(s) / loop(s) cut short", cut)));
